@@ -930,18 +930,16 @@ def run(chk):
     # 3 verdicts on the recorded executions: three batches of traces validated side by side
     traces = out['rtrace'] + out['strace']
     straces = out['strace']
-    forged = []         # no vacuity: an observation that is wrong in one sink must be refused
-    for tr in straces:
-        k = [i for i, e in enumerate(tr) if e['ev'] == 'comlog' and 'node' not in e['sinks']]
-        if k and len(forged) < 3:
-            f = json.loads(json.dumps(tr[:k[0] + 1]))
-            if len(forged) == 0:
-                f[-1]['sinks'] = sorted(f[-1]['sinks'] + ['node'])            # communication in the log file
-            elif len(forged) == 1:
-                f[-1]['sinks'] = sorted(set(f[-1]['sinks']) ^ {'m1'})          # comlog line missing / unexpected
-            else:
-                f[-1]['sinks'] = sorted(set(f[-1]['sinks']) ^ {'console'})     # console threshold ignored
-            forged.append(f)
+    # no vacuity: TLC's own behaviour written as a trace is accepted, the same trace with one sink wrong is refused
+    # (built from the specification's output, not from the code, so that it says nothing about the code)
+    canned = _canned(sbehs)
+    forged = [canned]
+    for k, wrong in enumerate((lambda x: x + ['node'],                    # communication in the log file
+                               lambda x: [y for y in x if y != 'm1'],     # comlog line missing
+                               lambda x: sorted(set(x) ^ {'console'}))):  # console threshold ignored
+        f = json.loads(json.dumps(canned))
+        f[-1]['sinks'] = sorted(wrong(f[-1]['sinks']))
+        forged.append(f)
     ctraces, corigin, seen = [], [], set()
     for name, runs in out['conc']:
         for flat, tr, exc, stuck in runs:
@@ -993,8 +991,9 @@ def run(chk):
     verdicts, st, tr, extra = v_rand
     chk.states += st
     chk.transitions += tr
-    if len(forged) < 3 or any(verdicts.pop(len(traces) + j) is None for j in range(len(forged))):
-        raise MachineryError('Trace_Logging accepts a forged observation of the local sinks (or none could be forged)')
+    fv = [verdicts.pop(len(traces) + j) for j in range(len(forged))]
+    if fv[0] is not None or any(v is None for v in fv[1:]):
+        raise MachineryError(f'Trace_Logging must accept the canned trace and refuse its three forgeries: {fv}')
     devs = {}
     for i, js in extra['DEVS']:
         d = set(json.loads(js))
@@ -1064,6 +1063,24 @@ def run(chk):
     chk.notes['wall_until_end_of_stage'] = stage
     chk.notes['cpu_of_children_until_end_of_stage'] = cpu
     chk.exhaustive = False
+
+
+def _canned(sbehs):
+    """a behaviour of Gen_Logging (all subscriptions off at start) ending with a comLog that reaches the comlog file,
+    as a trace"""
+    for beh in sbehs:
+        k = [i for i, st in enumerate(beh) if st['act'] == 'comlog' and 'm1' in st['exp']['last']['sinks']]
+        if k and k[0] >= 2 and all(v == 99 for row in beh[0]['exp']['level'].values() for v in row.values()):
+            tr = [{'ev': 'boot', 'cfg': beh[0]['cfg'], 'haslevel': False}]
+            for st in beh[1:k[0] + 1]:
+                e = {kk: v for kk, v in st.items() if kk not in ('act', 'exp')}
+                e.update(ev=st['act'], haslevel=False, day=st['exp']['day'], dated=st['exp']['dated'])
+                for f in ('to', 'sinks', 'ok'):
+                    if f in st['exp']['last']:
+                        e[f] = st['exp']['last'][f]
+                tr.append(e)
+            return tr
+    raise MachineryError('no emitted behaviour to make a canned trace from')
 
 
 def _work(item):
